@@ -34,10 +34,13 @@ class SingletonLocus:
 
 
     def __len__(self) -> int:
-        '''Length is always 1.
+        '''Length is 1 while the element is still in the locus it was taken
+        from (if any), and 0 once it has left it, so that a dynamics that
+        checks for an empty locus before drawing never fires an event
+        on a stale element.
 
-        :returns: 1'''
-        return 1
+        :returns: 1 or 0'''
+        return 1 if (self._locus is None or self._value in self._locus) else 0
 
 
     def __contains__(self, e: Element) -> bool:
